@@ -15,7 +15,7 @@ var stdAssumptions = []string{
 func init() {
 	registerCheck(&checkSpec{
 		id:    "C05",
-		dirs:  []string{"socket"},
+		dirs:  []string{"socket", "proto/jsonproto", "mixer/websocket/pbSubProto", "mixer/websocket/jsonSubProto"},
 		level: "other",
 		jobs: func(tier string) []job {
 			var js []job
@@ -40,15 +40,29 @@ func init() {
 				js = append(js, J("socket", "VX_C05_RawStream", a...))
 			}
 			js = append(js, J("socket", "VX_C05_RawSizeIndependent", 1, 2), J("socket", "VX_C05_RawSizeIndependent", 3, 0))
+			// json protocol: group(method, body, meta value, status msg), n, class(0 any byte = recorded finding, 1 text)
+			for g := 0; g <= 3; g++ {
+				js = append(js, J("proto/jsonproto", "VX_C05_JSONRoundTrip", g, 1, 1), J("proto/jsonproto", "VX_C05_JSONRoundTrip", g, 0, 1))
+			}
+			js = append(js, J("proto/jsonproto", "VX_C05_JSONRoundTrip", 1, 1, 0), J("proto/jsonproto", "VX_C05_JSONRoundTrip", 0, 1, 0), J("proto/jsonproto", "VX_C05_JSONRoundTrip", 1, 2, 1))
+			// websocket sub-protocols
+			js = append(js, J("mixer/websocket/pbSubProto", "VX_C05_WSPbRoundTrip", 1, 1, 1, 7), J("mixer/websocket/pbSubProto", "VX_C05_WSPbRoundTrip", 0, 2, 0, 0), J("mixer/websocket/pbSubProto", "VX_C05_WSPbRoundTrip", 2, 0, 1, -9),
+				J("mixer/websocket/jsonSubProto", "VX_C05_WSJsonRoundTrip", 1), J("mixer/websocket/jsonSubProto", "VX_C05_WSJsonRoundTrip", 90))
+			if tier == "thorough" {
+				for g := 0; g <= 3; g++ {
+					js = append(js, J("proto/jsonproto", "VX_C05_JSONRoundTrip", g, 2, 1))
+				}
+				js = append(js, J("mixer/websocket/pbSubProto", "VX_C05_WSPbRoundTrip", 2, 3, 2, 0))
+			}
 			return js
 		},
 		assumptions: append(append([]string{}, stdAssumptions...), "strconv Format/Parse of SYMBOLIC integers are summarised by the round-trip contract (stub S-STRCONV); concrete integers run the real strconv code"),
 		explanation: "symbolic execution of the real raw-protocol Pack/Unpack code (go/ssa rebuilt from /repo) with symbolic field contents and solver-chosen short-read positions; each vxAssert is an SMT query (unsat = holds for all values of the symbolic bytes within the shape)",
-		bounds:      "raw protocol only so far; method<=3 bytes, body<=4, meta<=3 pairs of <=2-byte key/value, status msg/cause<=2 bytes, seq symbolic int32 or samples incl. extremes, two frames with <=2 short reads at any offset, transfer pipes of <=3 filters",
+		bounds:      "raw protocol in depth; json protocol (gjson interpreted) with one symbolic text field of <= 2 bytes per instance; websocket protobuf sub-protocol (gogo-generated code interpreted) with symbolic seq/mtype/codec/method/meta/body; websocket json sub-protocol on concrete fields (frame built with fmt.Sprintf); pbproto/httproto/thrift not covered (library marshallers); raw: method<=3 bytes, body<=4, meta<=3 pairs of <=2-byte key/value, status msg/cause<=2 bytes, seq symbolic int32 or samples incl. extremes, two frames with <=2 short reads at any offset, transfer pipes of <=3 filters",
 	})
 	registerCheck(&checkSpec{
 		id:    "C06",
-		dirs:  []string{"socket"},
+		dirs:  []string{"socket", "proto/jsonproto"},
 		level: "other",
 		jobs: func(tier string) []job {
 			var js []job
@@ -60,6 +74,13 @@ func init() {
 				js = append(js, J("socket", "VX_C06_RawUnpackBytes", n, 24))
 			}
 			js = append(js, J("socket", "VX_C06_RawOversize", 24, 2), J("socket", "VX_C06_RawOversize", 100, 0))
+			jn := []int{0, 3, 4, 5, 6}
+			if tier == "thorough" {
+				jn = []int{0, 1, 2, 3, 4, 5, 6, 7, 8}
+			}
+			for _, n := range jn {
+				js = append(js, J("proto/jsonproto", "VX_C06_JSONUnpackBytes", n, 16))
+			}
 			return js
 		},
 		assumptions: stdAssumptions,
@@ -211,7 +232,7 @@ func init() {
 		bounds:      "2 pending calls, 2 frames, body <= 3 bytes; concurrency of writers and sequence allocation not yet covered (sequential schedules)",
 	})
 	registerCheck(&checkSpec{
-		id: "C04", dirs: []string{"socket", "."}, level: "other",
+		id: "C04", dirs: []string{"socket", ".", "proto/jsonproto", "mixer/websocket/pbSubProto", "mixer/websocket/jsonSubProto"}, level: "other",
 		jobs: func(tier string) []job {
 			js := []job{J("socket", "VX_C04_ResetLeavesSharedStatus", 1)}
 			js = append(js, c02jobs("quick")[:8]...)
@@ -219,6 +240,9 @@ func init() {
 				js = append(js, J(".", "VX_C03_Frame", 1, 0, 0, oc, 0, 0, 1, 0))
 			}
 			js = append(js, J(".", "VX_C03_Frame", 1, 1, 0, 0, 0, 0, 1, 0), J(".", "VX_C03_Frame", 1, 2, 0, 0, 0, 0, 1, 0), J(".", "VX_C03_Frame", 1, 1, 1, 0, 0, 0, 1, 0), J(".", "VX_C03_Frame", 1, 0, 0, 0, 2, 0, 1, 0))
+			// wire link over the other protocols
+			js = append(js, J("proto/jsonproto", "VX_C05_JSONRoundTrip", 3, 1, 1), J("proto/jsonproto", "VX_C05_JSONRoundTrip", 3, 0, 1),
+				J("mixer/websocket/pbSubProto", "VX_C04_WSPbStatus"), J("mixer/websocket/jsonSubProto", "VX_C04_WSJsonStatus"))
 			if tier == "thorough" {
 				js = append(js, c02jobs("thorough")...)
 			}
@@ -226,7 +250,7 @@ func init() {
 		},
 		assumptions: rootAssume,
 		explanation: "three links on real code: server side (status of the reply as a function of handler outcome / framework rule), raw wire (status round trip, shared with C05), client side (callCmd status from the reply's status and the decode result); statuses symbolic",
-		bounds:      "raw protocol only; library body codecs excluded (decode failure is produced by an unregistered codec id or the nil codec)",
+		bounds:      "wire link over raw, json and the two websocket sub-protocols; server/client links over raw; library body codecs excluded (decode failure is produced by an unregistered codec id or the nil codec)",
 	})
 	c19jobs := func(tier string) []job {
 		var js []job
